@@ -1018,6 +1018,11 @@ def replay_values(scen, cfg, vals, check_name, expect_exception=None):
             if not ok:
                 return {'reproduced': True, 'detail': f'check {name} is false on the real library'}
             return {'reproduced': False, 'detail': f'check {name} holds on the real library'}
+    failed = [n for n, ok, _ in env.checks if not ok]
+    if failed:
+        # the check itself is only evaluable symbolically (it inspects recorded calls); on the real library the same
+        # input makes an observable clause fail
+        return {'reproduced': True, 'detail': f'on the real library the counterexample makes check {failed[0]!r} fail'}
     if env.status in ('exception', 'timeout'):
         # the real library failed before reaching the check: the counterexample manifests as a crash/hang
         return {'reproduced': True, 'detail': f'real library: {env.exc} before reaching {check_name}'}
